@@ -4,6 +4,7 @@
  * protected fields; seeded sched_yield/usleep perturbation is injected around every lock operation.
  */
 #include "esl_dsqdata.c"          /* FIRST: gives access to dsqdata_pack5/2, dsqdata_unpack5/2, dsqdata_unpack_chunk */
+#include <stddef.h>
 #include <sched.h>
 #include <unistd.h>
 #include "esl_workqueue.h"
@@ -29,6 +30,8 @@ typedef struct {
   int       phase;      /* 0 = first region of the call, 1 = after a cond_wait returned */
   uint64_t  rng;
   int64_t   last_nchunk;/* dd->nchunk seen when this thread last released nchunk_mutex */
+  int       in_open;    /* main thread is inside esl_dsqdata_Open(): the first mutex it locks is dd->go_mutex */
+  pthread_mutex_t *held[8]; int nheld;   /* lock discipline: mutexes this thread holds */
 } TCTX;
 static __thread TCTX tctx;
 
@@ -40,6 +43,10 @@ static int             g_blk[64];          /* block payloads; block id = index *
 static char           *g_trace   = NULL;   /* appended only while holding g_wq->queueMutex */
 static size_t          g_tlen = 0, g_tcap = 0;
 static int             g_nevents = 0;
+static int             g_ptrace  = 0;      /* log the dsqdata pipeline regions */
+static int             g_lockerr = 0;      /* unlock / cond_wait on a mutex the thread does not hold */
+static pthread_mutex_t g_logmx   = PTHREAD_MUTEX_INITIALIZER;
+static void           *g_bufptr[256]; static int g_nbuf = 0;     /* chunk buffer -> id, in first-seen order */
 
 static int blkid(void *p) { return p ? (int)((int *)p - g_blk) : 0; }
 
@@ -104,11 +111,73 @@ static void log_thr(char end)
   g_nevents++;
 }
 
+/* ---- dsqdata pipeline regions ---- */
+static int bufid(void *p)      /* caller holds g_logmx */
+{
+  int i;
+  if (! p) return -1;
+  for (i = 0; i < g_nbuf; i++) if (g_bufptr[i] == p) return i;
+  if (g_nbuf < 256) { g_bufptr[g_nbuf] = p; return g_nbuf++; }
+  return 999;
+}
+
+static char dd_mutex_kind(pthread_mutex_t *m, int *ret_u)
+{
+  int u;
+  if (! g_dd) return 0;
+  for (u = 0; u < g_dd->n_unpackers && u < eslDSQDATA_UMAX; u++) {
+    if (m == &g_dd->inbox_mutex[u])  { *ret_u = u; return 'i'; }
+    if (m == &g_dd->outbox_mutex[u]) { *ret_u = u; return 'o'; }
+  }
+  *ret_u = 0;
+  if (m == &g_dd->recycling_mutex) return 'r';
+  if (m == &g_dd->nchunk_mutex)    return 'n';
+  return 0;
+}
+
+static void log_pipe(pthread_mutex_t *m, char end)
+{
+  char buf[2200], kind, who; int u, k;
+  pthread_t me = pthread_self();
+  if (! g_ptrace || (kind = dd_mutex_kind(m, &u)) == 0 || kind == 'n') return;
+  who = 'C';
+  if (pthread_equal(me, g_dd->loader_t)) who = 'L';
+  else for (k = 0; k < g_dd->n_unpackers; k++) if (pthread_equal(me, g_dd->unpacker_t[k])) who = 'U';
+  __real_pthread_mutex_lock(&g_logmx);
+  if (kind == 'i') {
+    ESL_DSQDATA_CHUNK *c = g_dd->inbox[u];
+    snprintf(buf, sizeof(buf), "%s%c/i/%d/%c/%c/%d/%" PRId64 "/%d", g_nevents ? ";" : "", who, u, tctx.phase ? 'w' : 'f', end,
+             bufid(c), c ? c->i0 : (int64_t) -1, g_dd->inbox_eod[u] ? 1 : 0);
+  } else if (kind == 'o') {
+    ESL_DSQDATA_CHUNK *c = g_dd->outbox[u];
+    snprintf(buf, sizeof(buf), "%s%c/o/%d/%c/%c/%d/%" PRId64 "/%d/%" PRId64 "/%d", g_nevents ? ";" : "", who, u, tctx.phase ? 'w' : 'f', end,
+             bufid(c), c ? c->i0 : (int64_t) -1, g_dd->outbox_eod[u] ? 1 : 0, who == 'C' ? g_dd->nchunk : (int64_t) -1, tctx.tid);
+  } else {
+    ESL_DSQDATA_CHUNK *c; size_t len;
+    snprintf(buf, sizeof(buf), "%s%c/r/0/%c/%c/", g_nevents ? ";" : "", who, tctx.phase ? 'w' : 'f', end);
+    len = strlen(buf);
+    if (! g_dd->recycling) len += snprintf(buf + len, sizeof(buf) - len, "-");
+    for (c = g_dd->recycling, k = 0; c && k < 200; c = c->nxt, k++) len += snprintf(buf + len, sizeof(buf) - len, "%s%d", k ? "." : "", bufid(c));
+    snprintf(buf + len, sizeof(buf) - len, "/%d", tctx.tid);
+  }
+  tappend(buf);
+  g_nevents++;
+  __real_pthread_mutex_unlock(&g_logmx);
+}
+
+static void held_add(pthread_mutex_t *m) { if (tctx.nheld < 8) tctx.held[tctx.nheld++] = m; }
+static int  held_has(pthread_mutex_t *m) { int i; for (i = 0; i < tctx.nheld; i++) if (tctx.held[i] == m) return 1; return 0; }
+static void held_del(pthread_mutex_t *m)
+{ int i; for (i = 0; i < tctx.nheld; i++) if (tctx.held[i] == m) { tctx.held[i] = tctx.held[--tctx.nheld]; return; } __sync_fetch_and_add(&g_lockerr, 1); }
+
 int __wrap_pthread_mutex_lock(pthread_mutex_t *m)
 {
   int r;
   perturb();
+  if (tctx.in_open && ! g_dd) g_dd = (ESL_DSQDATA *) ((char *) m - offsetof(ESL_DSQDATA, go_mutex));
   r = __real_pthread_mutex_lock(m);
+  held_add(m);
+  { int u; if (g_ptrace && dd_mutex_kind(m, &u)) tctx.phase = 0; }
   if (g_wq && m == &g_wq->queueMutex && tctx.active) tctx.phase = 0;
   if (g_thr && m == &g_thr->startMutex && tctx.active) tctx.phase = 0;
   return r;
@@ -120,6 +189,8 @@ int __wrap_pthread_mutex_unlock(pthread_mutex_t *m)
   if (g_wq && m == &g_wq->queueMutex && tctx.active) log_region('u');
   if (g_thr && m == &g_thr->startMutex && tctx.active) log_thr('u');
   if (g_dd && m == &g_dd->nchunk_mutex) tctx.last_nchunk = g_dd->nchunk;
+  if (g_dd) log_pipe(m, 'u');
+  held_del(m);
   r = __real_pthread_mutex_unlock(m);
   perturb();
   return r;
@@ -130,7 +201,10 @@ int __wrap_pthread_cond_wait(pthread_cond_t *c, pthread_mutex_t *m)
   int r;
   if (g_wq && m == &g_wq->queueMutex && tctx.active) log_region('c');
   if (g_thr && m == &g_thr->startMutex && tctx.active) log_thr('c');
+  if (g_dd) log_pipe(m, 'c');
+  if (! held_has(m)) __sync_fetch_and_add(&g_lockerr, 1);
   r = __real_pthread_cond_wait(c, m);
+  { int u; if (g_ptrace && dd_mutex_kind(m, &u)) tctx.phase = 1; }
   if (g_wq && m == &g_wq->queueMutex && tctx.active) tctx.phase = 1;
   if (g_thr && m == &g_thr->startMutex && tctx.active) tctx.phase = 1;
   return r;
@@ -251,7 +325,7 @@ static void op_wqrun(void)
   if (size < 1 || size > 32 || W < 1 || W > 8 || B < 1 || B > size || M < 0 || M > 100000) { h_out("bad-op"); return; }
   g_perturb = (int) h_argi("pert", 30);
   memset(&tctx, 0, sizeof(tctx)); tctx.tid = 0; tctx.rng = seed * 0x9E3779B97F4A7C15ull + 1;
-  g_tlen = 0; g_nevents = 0; if (g_trace) g_trace[0] = 0;
+  g_tlen = 0; g_nevents = 0; if (g_trace) g_trace[0] = 0; g_lockerr = 0;
   g_wq = esl_workqueue_Create(size);
   for (i = 1; i <= B; i++) { g_blk[i] = 0; if (L_Init(g_wq, &g_blk[i]) != eslOK) ok = 0; }
   for (i = 0; i < W; i++) {
@@ -292,8 +366,8 @@ static void op_wqrun(void)
       if (o && ! seenb[blkid(o)]) { seenb[blkid(o)] = 1; removed++; } else { removed = -1000; break; }
       if (removed > 64) break;
     }
-    h_out("%s items=%d processed=%d%s stops=%d order=%s final=%d,%d,%d removed=%d trace=%s", ok ? "ok" : "fail", M, processed,
-          dup ? " dup" : "", W, fifo ? "fifo" : "unordered", rc, wc, pend, removed, g_nevents ? g_trace : "-");
+    h_out("%s items=%d processed=%d%s stops=%d order=%s final=%d,%d,%d removed=%d%s trace=%s", ok ? "ok" : "fail", M, processed,
+          dup ? " dup" : "", W, fifo ? "fifo" : "unordered", rc, wc, pend, removed, g_lockerr ? " lockerr" : "", g_nevents ? g_trace : "-");
   }
   esl_workqueue_Destroy(g_wq);
   g_wq = NULL; g_perturb = 0;
@@ -332,7 +406,7 @@ static void op_thrun(void)
   th_seed = h_argu("seed", 1);
   g_perturb = (int) h_argi("pert", 30);
   memset(&tctx, 0, sizeof(tctx)); tctx.tid = 1000; tctx.rng = th_seed * 0x9E3779B97F4A7C15ull + 5;
-  g_tlen = 0; g_nevents = 0; if (g_trace) g_trace[0] = 0;
+  g_tlen = 0; g_nevents = 0; if (g_trace) g_trace[0] = 0; g_lockerr = 0;
   g_thr = esl_threads_Create(&th_worker);
   for (r = 0; r < R; r++) {
     th_N = N; th_arrived = 0; th_startorder = 0; th_early = 0; th_badidx = 0; memset(th_idxseen, 0, sizeof(th_idxseen));
@@ -346,7 +420,7 @@ static void op_thrun(void)
     for (i = 0; i < N; i++) if (th_idxseen[i] != 1) badidx++;
     tappend(g_nevents ? ";0/F/f/u/0/0" : "0/F/f/u/0/0"); g_nevents++;
   }
-  h_out("%s workers=%d rounds=%d idx=%s early=%d trace=%s", ok ? "ok" : "fail", N, R, badidx ? "bad" : "ok", early, g_trace);
+  h_out("%s workers=%d rounds=%d idx=%s early=%d%s trace=%s", ok ? "ok" : "fail", N, R, badidx ? "bad" : "ok", early, g_lockerr ? " lockerr" : "", g_trace);
   esl_threads_Destroy(g_thr);
   g_thr = NULL; g_perturb = 0;
 }
@@ -477,12 +551,12 @@ static CHREC *rt_chu;  static int rt_nchu_alloc;
 static int    rt_dup, rt_eofs, rt_oob, rt_err;
 static pthread_mutex_t rt_mutex = PTHREAD_MUTEX_INITIALIZER;
 
-typedef struct { uint64_t seed; } CARG;
+typedef struct { uint64_t seed; int tid; } CARG;
 
 static void *rt_consumer(void *p)
 {
   CARG *a = (CARG *) p; ESL_DSQDATA_CHUNK *chu; int st, i;
-  memset(&tctx, 0, sizeof(tctx)); tctx.rng = a->seed; tctx.tid = 100;
+  memset(&tctx, 0, sizeof(tctx)); tctx.rng = a->seed; tctx.tid = a->tid;
   while ((st = esl_dsqdata_Read(g_dd, &chu)) == eslOK) {
     int64_t seqno = tctx.last_nchunk - 1;
     __real_pthread_mutex_lock(&rt_mutex);
@@ -551,10 +625,16 @@ static void op_dsqrt(void)
   memset(&tctx, 0, sizeof(tctx)); tctx.rng = seed * 0x9E3779B97F4A7C15ull + 11;
   rt_nseq = n1; rt_rec = calloc(n1 + 1, sizeof(RREC)); rt_nchu_alloc = n1 + 2; rt_chu = calloc(rt_nchu_alloc, sizeof(CHREC));
   rt_dup = rt_eofs = rt_oob = rt_err = 0;
-  g_dd = NULL;
-  st = esl_dsqdata_Open(&abc, base, C, &g_dd);
-  if (st != eslOK) { h_out("dsqopen-%s", h_status(st)); if (g_dd) free(g_dd); g_dd = NULL; goto CLEAN2; }
-  for (i = 0; i < C; i++) { ca[i].seed = seed * 7777ull + 13ull * (i + 1); pthread_create(&th[i], NULL, rt_consumer, &ca[i]); }
+  g_dd = NULL; g_tlen = 0; g_nevents = 0; if (g_trace) g_trace[0] = 0; g_nbuf = 0; g_lockerr = 0;
+  g_ptrace = (int) h_argi("trace", 1);
+  { ESL_DSQDATA *dd = NULL;
+    tctx.in_open = 1;                       /* the wrapper derives g_dd from the first mutex locked inside Open() */
+    st = esl_dsqdata_Open(&abc, base, C, &dd);
+    tctx.in_open = 0;
+    if (st != eslOK) { h_out("dsqopen-%s", h_status(st)); g_dd = NULL; g_ptrace = 0; if (dd) free(dd); goto CLEAN2; }
+    if (g_dd != dd) { g_ptrace = 0; g_dd = dd; }   /* could not identify the object early: run without trace */
+  }
+  for (i = 0; i < C; i++) { ca[i].seed = seed * 7777ull + 13ull * (i + 1); ca[i].tid = 100 + i; pthread_create(&th[i], NULL, rt_consumer, &ca[i]); }
   for (i = 0; i < C; i++) pthread_join(th[i], &r);
   { ESL_DSQDATA *dd = g_dd; esl_dsqdata_Close(dd); g_dd = NULL; }
   g_perturb = 0;
@@ -574,8 +654,9 @@ static void op_dsqrt(void)
     clen += sprintf(cstr + clen, "%s%" PRId64 ":%d:%d", i ? "," : "", rt_chu[i].i0, rt_chu[i].N, rt_chu[i].pn); nchunks++;
   }
   for (; i < rt_nchu_alloc; i++) if (rt_chu[i].set) rt_oob++;      /* a gap in the chunk numbering */
-  h_out("ok nseq=%d chunks=%s digest=%" PRIu64 " eofs=%d dup=%d miss=%d bad=%d oob=%d err=%d", n1 - miss, nchunks ? cstr : "-", h, rt_eofs, rt_dup, miss, bad,
-        rt_oob, rt_err);
+  h_out("ok nseq=%d chunks=%s digest=%" PRIu64 " eofs=%d dup=%d miss=%d bad=%d oob=%d err=%d lockerr=%d trace=%s", n1 - miss, nchunks ? cstr : "-", h,
+        rt_eofs, rt_dup, miss, bad, rt_oob, rt_err, g_lockerr, (g_ptrace && g_nevents) ? g_trace : "-");
+  g_ptrace = 0;
   free(cstr);
  CLEAN2:
   for (i = 0; i < n1; i++) if (rt_rec[i].filled) { free(rt_rec[i].name); free(rt_rec[i].acc); free(rt_rec[i].desc); free(rt_rec[i].dsq); }
